@@ -137,7 +137,10 @@ class TypeMap:
             return self.c(targs[idx])
         if args is not None:
             if b in ('std::vector', 'vector'):
-                return self.vec(self.c(args[0]))
+                et = self.c(args[0])
+                if self.kinds.get(et, ('',))[0] == 'vec' or et == 'c_opaque':
+                    return 'c_opaque'      # nested unbounded arrays are not supported by CBMC: unmodelled object
+                return self.vec(et)
             if b in ('std::basic_string', 'basic_string', 'std::basic_string_view', 'basic_string_view'):
                 return self.vec('char')
             if b in ('std::array', 'array'):
